@@ -213,6 +213,9 @@ inductive Op
   | save
   | saveFail                          -- save() whose file I/O raises (repaired `_save_file`)
   | load
+  | loadFail                          -- load() of a file the storage rejects (not JSON, not a model,
+                                      -- unsupported version): raises before anything is assigned
+                                      -- (`storage_model` setter checks the version first)
 
 inductive Res
   | handle (h : Nat)
@@ -253,6 +256,7 @@ def step (st : Store H) : Op → Store H × Res
       if changed hash st then (mark hash { st with file := some (dumpAll st.items) }, .unit)
       else (st, .unit)
   | .saveFail => (st, .unit)
+  | .loadFail => (st, .unit)
   | .load =>
     match st.kind, st.file with
     | .file, some f =>
